@@ -60,7 +60,7 @@ def main():
             return 3
         cpatch0 = os.path.join(src, "c_patch.diff")
         if os.path.exists(cpatch0):
-            rc, out = sh("patch -p0 orso/compute/compiled.c < %s && cd orso/compute && gcc -shared -fPIC -O1 "
+            rc, out = sh("patch -p0 orso/compute/compiled.c < %s && cd orso/compute && gcc -shared -fPIC -O1 -DNDEBUG "
                          "-I/root/.pyenv/versions/3.12.1/include/python3.12 -I/venv/lib/python3.12/site-packages/numpy/_core/include "
                          "-o compiled.cpython-312-x86_64-linux-gnu.so compiled.c" % cpatch0, cwd=wt)
             if rc != 0:
